@@ -202,8 +202,9 @@ fn gen_library(r: &mut Rng) -> Vec<Pkg> {
     v.push(comp("test:ver", Some("1.0.0"), vec![d("foo:bar/baz@1.0.0")], vec![d("f")]));
     v.push(comp("test:ver", Some("2.0.0"), vec![d("foo:bar/baz@2.0.0"), d("g")], vec![d("y")]));
     v.push(comp("test:prov", None, vec![], vec![d("f"), d("g"), d("foo:bar/baz"), d("wasi:io/streams@0.2.0"), d("x"), d("foo:bar/deep"), d("other:lib/baz")]));
+    v.push(comp("test:both", None, vec![], vec![d("f"), d("x:y/f"), d("baz"), d("foo:bar/baz")]));
     v.push(comp("test:sink", None, vec![d("f"), d("g"), d("foo:bar/baz"), d("wasi:io/streams@0.2.0"), d("x")], vec![d("run")]));
-    let nrand = 6 + r.below(3) as usize;
+    let nrand = if r.0 == u64::MAX { 0 } else { 6 + r.below(3) as usize };
     for i in 0..nrand {
         let ni = r.below(5) as usize;
         let ne = 1 + r.below(4) as usize;
@@ -543,10 +544,13 @@ impl<'a> Gen<'a> {
             let pool: Vec<Local> = if srcs.is_empty() && self.r.chance(1, 12) { self.locals.iter().filter(|l| matches!(l.kind, GK::I(_))).cloned().collect() } else { srcs };
             if !pool.is_empty() {
                 let l = self.r.pick(&pool).clone();
+                let unbound0 = unbound.clone();
                 if let GK::I(ex) = &l.kind { unbound.retain(|(n, _)| !ex.iter().any(|(m, _)| m == n)); }
                 let pos = self.r.below(args.len() as u64 + 1) as usize;
-                args.insert(pos, Arg::Spread(l.id));
-                let more: Vec<Local> = self.locals.iter().filter(|l| matching(l, &unbound)).cloned().collect();
+                args.insert(pos, Arg::Spread(l.id.clone()));
+                // a second spread: one that supplies something still unbound, sometimes one that competes with the first
+                let compete = self.r.chance(1, 3);
+                let more: Vec<Local> = self.locals.iter().filter(|m| m.id != l.id && matching(m, if compete { &unbound0 } else { &unbound })).cloned().collect();
                 if !more.is_empty() && self.r.chance(1, 2) {
                     let l2 = self.r.pick(&more).clone();
                     if let GK::I(ex) = &l2.kind { unbound.retain(|(n, _)| !ex.iter().any(|(m, _)| m == n)); }
@@ -1011,7 +1015,7 @@ fn main() {
     let seed: u64 = args[2].parse().unwrap();
     if std::env::var("C04_TRACE").is_err() { std::panic::set_hook(Box::new(|_| {})); }
     let mut out = Out { co: std::io::BufWriter::new(std::fs::File::create(&args[3]).unwrap()), io: std::io::BufWriter::new(std::fs::File::create(&args[4]).unwrap()) };
-    if let Some(replay) = args.get(5) {
+    if let (Some(replay), true) = (args.get(5), tier != "witness") {
         // blocks: `U reset`, `U wat` lines, `U name` lines (kept as extra names), `P` lines
         let text = std::fs::read_to_string(replay).unwrap();
         let mut lib: Vec<Pkg> = Vec::new(); let mut extra = BTreeSet::new(); let mut progs = Vec::new();
@@ -1031,6 +1035,23 @@ fn main() {
             }
         }
         flush(&mut lib, &mut extra, &mut progs, &mut out);
+        return;
+    }
+    if tier == "witness" {
+        // the fixed part of the library only; programs from a file, separated by lines `---`
+        let mut fixed = Rng(u64::MAX);
+        let lib = gen_library(&mut fixed);
+        let text = std::fs::read_to_string(&args[5]).unwrap();
+        let mut extra = BTreeSet::new();
+        for n in IFACES.iter().chain(PLAIN.iter()).chain(EXPORT_NAMES.iter()) { extra.insert(n.to_string()); }
+        let mut progs = Vec::new();
+        for (i, src) in text.split("\n---\n").enumerate() {
+            if src.trim().is_empty() { continue; }
+            // every identifier-like or quoted word of a witness is a name the oracles must know
+            for w in src.split(|c: char| !(c.is_ascii_alphanumeric() || "-:/@.".contains(c))) { if !w.is_empty() { extra.insert(w.trim_matches('.').to_string()); } }
+            progs.push((format!("w{i}"), "witness".to_string(), format!("{}\n", src.trim_end())));
+        }
+        emit_block(&mut out, &lib, &progs, &extra);
         return;
     }
     let mut r = Rng::new(seed);
